@@ -106,15 +106,18 @@ def install():
         ('cross', '_func_eval'): _make_func_eval}).__enter__()
 
 
-def execute(run, Y0, use_cb=True, **kw):
-    """Run teneva.cross under instrumentation; exceptions are captured."""
+def execute(run, Y0, use_cb=True, pass_info=True, **kw):
+    """Run teneva.cross under instrumentation; exceptions are captured.
+    pass_info=False leaves the info argument out (the library's default
+    dictionary, one object shared by all such calls)."""
     import teneva
     info = kw.pop('info', None)
     info = {} if info is None else info
+    extra = {'info': info} if pass_info else {}
     _current['run'] = run
     try:
-        run.result = teneva.cross(run.f, Y0, info=info,
-            cb=run.cb if use_cb else None, **kw)
+        run.result = teneva.cross(run.f, Y0,
+            cb=run.cb if use_cb else None, **extra, **kw)
     except Exception as ex:          # judged by the caller
         run.error = ex
     finally:
